@@ -104,4 +104,17 @@ CLAIMS = {
   text="Proved for every paging script and page size: draining the adapted stream yields the concatenation of all pages' items in order exactly once, ends Done, the final result is the last page's without the paging control, the first request carries paging(size, empty cookie) after the caller's controls, every follow-up repeats parameters and controls with the cookie last returned, paging stops at the first empty cookie (c16, c16_final_has_no_paging); a caller-supplied paging control is rejected at start (c16_rejects_caller_paging_control). "
        "Tie to the code: a scripted paging server over the in-memory transport (result sets 0-29, page sizes 1-8, cookies to 300 bytes, empty first page, single page, unrelated controls) through the real PagedResults adapter vs the extracted model; the server's own request log is the oracle for the request chain.",
   note=COMMON_NOTE + "The id of each follow-up search is released by F8's repair (C13)."),
+ "C14": dict(
+  text="THIN MODEL, decided with the same technique: the delegation table of src/sync.rs is regenerated by a translator on every run (for each pub fn of LdapConn / EntryStream: the inner method it blocks on and the arguments it passes; for each with_*: the field it assigns); proved over that table: it is diagonal and covers the whole operation surface (c14_table_diagonal, by computation), "
+       "and for a diagonal table every sequence of facade calls equals the same sequence of async calls (c14_equivalence, c14_sequences). A delegation to the wrong method, swapped arguments, a modifier assigning the wrong field or a dropped method break the obligation. Tie to behaviour: the same scripts through LdapConn/EntryStream and through Ldap/SearchStream over socket pairs against the same scripted server (success, error codes, disconnect, silence+timeout): transcripts and results must be identical.",
+  note=COMMON_NOTE + "block_on / the private runtime are not modelled; the theorem is only as strong as the translator's reading of sync.rs, the differential lane carries the behavioural weight."),
+ "C17": dict(
+  text="PARTIAL (the TLS library is an oracle). Proved on the establishment model: if TLS was requested (ldaps or StartTLS) a returned handle is on a TLS transport (c17_tls_when_requested); the only cleartext write is the StartTLS request (c17_cleartext_only_starttls); a non-zero StartTLS result code, a failed handshake, or an untrusted / wrong-name certificate without verification disabled make establishment fail "
+       "(c17_nonzero_rc_fails, c17_handshake_failure_fails, c17_untrusted_fails_unless_disabled); bytes buffered before the handshake never reach the LDAP decoder of the protected session (c17_preface_bytes_dropped). Tie to the code: the real with_settings against loopback listeners with a native-tls acceptor and test certificates (own CA, self-signed, wrong name), "
+       "every StartTLS answer incl. close / another message first (F18 repaired), aborted handshakes and a forged cleartext reply after the StartTLS response; the server's log of cleartext vs decrypted messages is the oracle.",
+  note=COMMON_NOTE + "What the model cannot exhibit: the handshake and X.509 validation themselves (oracle inputs 'certificate trusted for the host' and 'handshake completes'). Real sockets with wall-clock guards; the lane reports 'skipped' when ports or certificates are unavailable."),
+ "C18": dict(
+  text="THIN MODEL. Proved on the set-up decision function (from the url crate's scheme/host/port and the settings), with the repairs F12/F13: never a panic (c18_total); ldap -> TCP 389, ldaps -> TLS 636, explicit ports honoured, missing or empty host = localhost, ldapi -> percent-decoded socket path, port-bearing or empty ldapi rejected, a pre-opened stream used only if its type matches, unknown schemes rejected, "
+       "the connection timeout wraps the whole TCP establishment incl. StartTLS (c18_ldap_default_port, c18_ldaps_default_port, c18_missing_host_localhost, c18_ldapi_decodes_path, c18_ldapi_port_rejected, c18_ldapi_empty, c18_mismatched, c18_unknown_scheme). Tie to the code: URL x settings matrix through the real with_settings against loopback listeners on 389/636/38901 and a Unix socket that record who was contacted and what the client said first; unreachable endpoint and silent-server-under-timeout cases as oracles.",
+  note=COMMON_NOTE + "The url crate and name resolution are oracles. Real sockets; 'skipped' if the ports cannot be bound."),
 }
